@@ -76,12 +76,27 @@ def branch_stmts(body: list[ast.stmt]):
 
 
 def value_exprs(stmts) -> list[ast.expr]:
+    """Values computed in a branch: the returned / assigned expression itself, or, when it merely
+    wraps the result (`rmap[left <= right]`, `bool(a < b)`), the operator application inside."""
     out = []
     for s in stmts:
+        v = None
         if isinstance(s, ast.Return) and s.value is not None:
-            out.append(s.value)
+            v = s.value
         elif isinstance(s, ast.Assign):
-            out.append(s.value)
+            v = s.value
+        if v is None:
+            continue
+        if isinstance(v, (ast.BinOp, ast.Compare, ast.UnaryOp, ast.BoolOp)):
+            out.append(v)
+            continue
+        inner = []
+        if isinstance(v, ast.Subscript):
+            inner = [v.slice]
+        elif isinstance(v, ast.Call) and len(v.args) == 1 and not v.keywords:
+            inner = [v.args[0]]
+        ops = [x for x in inner if isinstance(x, (ast.BinOp, ast.Compare))]
+        out.extend(ops if ops else [v])
     return out
 
 
